@@ -22,6 +22,7 @@ HARNESSES = {
     "ieee_le_total_on_non_nan": (["C11", "C12"], "f64 <= total and antisymmetric on non-NaN (smaller_unit)"),
     "vm_le_bytes": (["C09"], "std u16::{to,from}_{le,be}_bytes contracts used by push_u16 / read_u16, all 65536 values"),
     "ieee_classification": (["C02"], "axiom_f64_classes: is_finite / is_normal / is_subnormal / is_zero / is_infinite / is_nan partition the f64 values as IEEE-754 says"),
+    "unicode_operator_chars_not_xid": (["C10"], "axiom_operators_are_not_xid_{start,continue}: checked against unicode_ident's tables for the 33 operator characters"),
     "ieee_integer_guard": (["C08"], "pretty_print integer branch: is_integer && |x| < 2^53 => exact i64 cast"),
 }
 
@@ -55,8 +56,9 @@ def run(name, prop, tier):
     for b in blocks:
         hname = b.split("...")[0].strip().split("::")[-1]
         checks = re.findall(r"Check (\d+): (.+)\n\s+- Status: (\w+)\n\s+- Description: \"(.*?)\"\n(?:\s+- Location: (.*?)\n)?", b)
-        fails = [c for c in checks if c[2] not in ("SUCCESS",) and not c[3].startswith("NaN on")]
-        filtered = [c for c in checks if c[2] != "SUCCESS" and c[3].startswith("NaN on")]
+        # UNREACHABLE = the check's location cannot be reached (e.g. the panic-message formatting behind an assert! that holds)
+        fails = [c for c in checks if c[2] not in ("SUCCESS", "UNREACHABLE") and not c[3].startswith("NaN on")]
+        filtered = [c for c in checks if c[2] not in ("SUCCESS", "UNREACHABLE") and c[3].startswith("NaN on")]
         m = re.search(r"Verification Time: ([\d.]+)s", b)
         vt = float(m.group(1)) if m else 0.0
         solver_s += vt
